@@ -380,6 +380,31 @@ class SimLock:
         return False
 
 
+class SimRLock(SimLock):
+    """Re-entrant variant (threading.RLock): the holding task may acquire again."""
+
+    def __init__(self):
+        super().__init__()
+        self.depth = 0
+
+    def acquire(self, blocking: bool = True, timeout: float = -1) -> bool:
+        s = SCHED
+        me = s.current if (s is not None and s.current is not None and _rt.current_thread() is s.current.thread) else "main"
+        if self.holder is not None and self.holder is me:
+            self.depth += 1
+            return True
+        ok = super().acquire(blocking, timeout)
+        if ok:
+            self.depth = 1
+        return ok
+
+    def release(self) -> None:
+        self.depth -= 1
+        if self.depth <= 0:
+            self.depth = 0
+            super().release()
+
+
 class SimEvent:
     def __init__(self):
         self.flag = False
@@ -481,7 +506,7 @@ def sim_sleep(seconds: float) -> None:
 def make_threading_shim():
     ns = types.SimpleNamespace()
     ns.Lock = SimLock
-    ns.RLock = SimLock
+    ns.RLock = SimRLock
     ns.Event = SimEvent
     ns.Thread = SimThread
     ns.current_thread = _rt.current_thread
@@ -518,11 +543,23 @@ class Installed:
         global SCHED
         SCHED = self.sched
         tsh, qsh, tmsh = make_threading_shim(), make_queue_shim(), make_time_shim()
+        import queue as _rq
+        import threading as _rth
+        import time as _rtime
+        # names imported directly (`from threading import Lock`, `from time import sleep`, ...) are rebound as well, so that
+        # the engine does not depend on which import style the module under test happens to use
+        direct = {id(_rth.Lock): SimLock, id(_rth.RLock): SimRLock, id(_rth.Event): SimEvent, id(_rth.Thread): SimThread,
+                  id(_rq.Queue): SimQueue, id(_rq.SimpleQueue): SimQueue, id(_rtime.sleep): sim_sleep}
         for m in self.modules:
             for name, shim in (("threading", tsh), ("queue", qsh), ("time", tmsh)):
                 if hasattr(m, name) and isinstance(getattr(m, name), types.ModuleType):
                     self.saved.append((m, name, getattr(m, name)))
                     setattr(m, name, shim)
+            for name, obj in list(vars(m).items()):
+                rep = direct.get(id(obj))
+                if rep is not None and not name.startswith("__"):
+                    self.saved.append((m, name, obj))
+                    setattr(m, name, rep)
         return self
 
     def __exit__(self, *a):
